@@ -34,10 +34,12 @@ pub fn block_on_park<F: Future>(f: F) -> F::Output {
     // violation. After a few such timeouts the deadline is shortened so that a broken tree
     // cannot stall the run.
     static TIMEOUTS: AtomicU32 = AtomicU32::new(0);
+    // (60 s: on a machine loaded far beyond its cores a healthy actor was once seen to take more
+    // than 10 s to answer, which made the detector itself raise an alarm in a thorough run)
     let deadline = if TIMEOUTS.load(Ordering::Relaxed) >= 3 {
-        Duration::from_millis(500)
+        Duration::from_secs(5)
     } else {
-        Duration::from_secs(10)
+        Duration::from_secs(60)
     };
     let start = Instant::now();
     let waker = Waker::from(Arc::new(Parker(std::thread::current())));
@@ -76,9 +78,9 @@ pub fn block_on<F: Future>(f: F) -> F::Output {
         }
         // hang detector, see block_on_park
         rt.as_ref().unwrap().block_on(async {
-            match tokio::time::timeout(std::time::Duration::from_secs(60), f).await {
+            match tokio::time::timeout(std::time::Duration::from_secs(180), f).await {
                 Ok(v) => v,
-                Err(_) => panic!("future did not complete within 60 s (store actor dead after a panic, or deadlocked)"),
+                Err(_) => panic!("future did not complete within 180 s (store actor dead after a panic, or deadlocked)"),
             }
         })
     })
